@@ -94,6 +94,10 @@ func runReader(c *ctx) {
 	}
 	withErr := tp.Bool(1, 3)
 	sr := kernel.NewSimReader(tp, rc.Stats, data, withErr)
+	if withErr {
+		// "r's errors pass through": whatever their kind.
+		sr.Err = errPool[tp.Choose(len(errPool))]
+	}
 	if tp.Bool(1, 8) {
 		// A wrapped reader that breaks the io.Reader contract with a negative
 		// count now and then.  What Read returns for such a call is not
@@ -160,7 +164,21 @@ func runReader(c *ctx) {
 
 			continue
 		}
-		got, err := lr.Read(p)
+		var got int
+		var err error
+		if br, ok := lr.(io.ByteReader); ok && tp.Bool(1, 4) {
+			// The reader offers an optional reading interface: the statement
+			// covers what it delivers through it as well.  A nil error means
+			// one byte was delivered.
+			rc.Stats.Probe("read-through-io.ByteReader")
+			bufLen, p = 1, []byte{0xEE}
+			var b byte
+			if b, err = br.ReadByte(); err == nil {
+				p[0], got = b, 1
+			}
+		} else {
+			got, err = lr.Read(p)
+		}
 		calls := sr.Calls[before:]
 		c.logf("Read(buf %d) = (%d, %v); wrapped calls: %s", bufLen, got, err, fmtCalls(calls))
 		c.sig = kernel.HashBytes(c.sig, []byte{byte(bufLen), byte(got), byte(len(calls)), errByte(err)})
@@ -407,6 +425,20 @@ func checkForwarded(rc *kernel.RunCtx, c *ctx, sw *kernel.SimWriter, all []byte,
 	return true
 }
 
+// errPool: kinds of errors a wrapped reader may fail with.
+type eofLikeError struct{ op string }
+
+func (e *eofLikeError) Error() string { return e.op + ": connection closed" }
+func (e *eofLikeError) Unwrap() error { return io.EOF }
+
+var errPool = []error{
+	kernel.ErrInjected,
+	fmt.Errorf("reading chunk: %w", io.EOF),
+	&eofLikeError{op: "read"},
+	io.ErrUnexpectedEOF,
+	fmt.Errorf("wrapped twice: %w", fmt.Errorf("inner: %w", kernel.ErrInjected)),
+}
+
 func errByte(err error) byte {
 	switch {
 	case err == nil:
@@ -507,7 +539,15 @@ func runWriter(c *ctx) {
 
 			continue
 		}
-		got, err := tw.Write(b)
+		var got int
+		var err error
+		if stw, ok := any(tw).(io.StringWriter); ok && tp.Bool(1, 3) {
+			// An optional writing interface: the same statement applies.
+			rc.Stats.Probe("write-through-io.StringWriter")
+			got, err = stw.WriteString(string(b))
+		} else {
+			got, err = tw.Write(b)
+		}
 		calls := sw.Calls[before:]
 		all = append(all, orig...)
 		c.logf("Write(%d bytes) = (%d, %v); forwarded %d call(s)", l, got, err, len(calls))
